@@ -1,7 +1,7 @@
 SPEC = {
     "trusted": [
         "C08: the specification side is the relation `reordered` / `class_rel` / `field_rel` / `meth_rel` / `param_rel` of coq/C08/Theory.v, the token grammar `toks_wf` of coq/C08/TheoryB.v and the shared well-formedness predicate `wf` of coq/Quill/Mappings.v",
-        "C08: the harness' independent reference reorder (harness/src/bin/c08.rs ref_reorder, ref_map_desc) is the oracle used to search for failing inputs on the implementation; it compares up to insertion order",
+        "C08: the harness' independent reference reorder (harness/src/bin/c08.rs ref_reorder, ref_map_desc) is the oracle used to search for failing inputs on the implementation; it compares up to insertion order (MMappings::equiv: rows, descriptors, parameter indices and the comments of every level INCLUDING the mapping set's own comment, which the C08 generators set with probability 1/3 — the shared generator leaves it None); exact IndexMap order is compared only in the model correspondence",
         "C08: IndexMap is modelled as an insertion-ordered association list (insert on an existing key replaces in place); the correspondence compares results in IndexMap iteration order",
     ],
     "assumptions": [
